@@ -15,7 +15,7 @@
     rawnew r=1 l=a,b | rawwrite r=1 i=0 v=z
     create h=2 as=A | update h=2 as=A exp=any | destroy id=a as=A
     modify h=2 as=A ms=setlabel/k1/v1;finadd/x | updatewc id=a dst=4 as=A ms=...
-    get id=a dst=5 via=direct|cached | list base=10 via=direct|cached | sync | snap
+    get id=a dst=5 via=direct|cached | list base=10 via=direct|cached [q=<label key>] | sync | snap
 -/
 import Cosi.Spec.Alias
 
@@ -133,9 +133,26 @@ structure St where
 
 def init (spec : Bool) (_ : List (String × String)) : St := { spec := spec }
 
+/-- `list … q=<label key>`: List with a label query (exists key). The same reads as an unfiltered
+    List — one copy-out per id at the List site, bound to consecutive handles — for the ids whose
+    stored / cached object carries the label (the filtered path of collection.List and of
+    cacheHandler.list). -/
+def filteredList (st : St) (base : Nat) (via : Via) (key : String) : St × String :=
+  if st.spec then
+    let ids := sortStrs (((Spec.Alias.vTable st.v via).filter fun p => (aget p.2.md.labels key).isSome).map (·.1))
+    let v' := Spec.Alias.runPrims st.v (listPrims ids base via)
+    ({ st with v := v' }, outStr (.ids ids) ++ " | " ++ snapStr v')
+  else
+    let ids := sortStrs (((viaTable st.m via).filter fun p =>
+      (aget (viewObj st.m.heap (objAt st.m.objs p.2)).md.labels key).isSome).map (·.1))
+    let m' := runPrims Heap.facts st.m (listPrims ids base via)
+    ({ st with m := m' }, outStr (.ids ids) ++ " | " ++ snapStr (Spec.Alias.abs m'))
+
 def stepLine (st : St) (op : String) (a : List (String × String)) : St × String :=
   if op == "snap" then
     (st, "snap | " ++ snapStr (if st.spec then st.v else Spec.Alias.abs st.m))
+  else if op == "list" && arg a "q" != "" then
+    filteredList st (argNat a "base") (parseVia a) (arg a "q")
   else
   match parseStep op a with
   | none => (st, "bad-op")
